@@ -658,6 +658,11 @@ class PVLParser(object):
                     "While parsing, expected a comma (,)" f'but found: "{t}"',
                 )
 
+        raise ParseError(
+            "Ran out of tokens before finding the end delimiter "
+            f'"{delimiters[1]}" of a Set or Sequence.'
+        )
+
     def parse_set(self, tokens: abc.Generator) -> frozenset:
         """Parses a PVL Set.
 
